@@ -33,6 +33,9 @@ CLAIMS = {
  "C02": dict(cat="proof", tech="machine-checked proof in Coq of the slice driver (all lengths, in-bounds) + differential execution JIT vs interpreter with guard pages in child processes",
    text="Kernel-checked: JitBulkEval::eval's chunking returns exactly n results with result i = kernel(lane i) for every length n and SIMD width S>0, and all its reads/writes are inside the caller's slices / output rows. The hand-written x86_64 sequences are NOT proved: they are compared with the interpreter (which is tied to the Coq model by C01) on every opcode and operand form, on special values, every slice length 0..35, with caller slices adjacent to inaccessible pages.",
    ref="DESIGN.md §5 C02", note="Partial: instruction sequences, register spills and the stack frame are covered by correspondence only; aarch64 backend not executable here."),
+ "C05": dict(cat="proof", tech="machine-checked proof in Coq (value lane = point evaluation for every tape; derivative lemmas over R in progress) + bit-exact correspondence of the gradient model + local chain-rule oracle in f64",
+   text="Kernel-checked for every float structure and every tape: the value lane of the gradient evaluator is the point evaluation (composition through Related.tape_related). types/grad.rs and the grad-slice loop are modelled once over the abstract float structure; the f32 instance equals the interpreter bit-for-bit with every node exported and arbitrary seeds. The oracle checks the chain rule per node in f64 from the evaluator's own operand duals (interpreter and JIT) and the symbolic derivative against forward mode.",
+   ref="DESIGN.md §5 C05", note="Partial: the is_derive theorems (GradSound over R) are being proved; f32 rounding is covered by the tolerance oracle only."),
 }
 
 def main():
